@@ -94,6 +94,11 @@ func runC11Case(rt *rapid.T) {
 	for _, s := range specs {
 		apis = append(apis, adapt.New(s))
 	}
+	defer func() {
+		for _, a := range apis {
+			a.Release()
+		}
+	}()
 	isCache := base.IsCache()
 	m := model.New(U, vs.Epoch, model.NoExpiration, isCache)
 	var trace []string
